@@ -50,8 +50,10 @@ def raw(case):
     from weasyprint.text.line_break import create_layout, line_size
     from weasyprint.text.ffi import pango, ffi
     from weasyprint.text.constants import PANGO_WRAP_MODE
-    style = _style('normal', case['ow'], 'normal', 'manual', case['fs'])
+    style = _style('normal', 'normal', 'normal', 'manual', case['fs'])
     lay = create_layout(case['text'], style, _ctx(), _num(case['w']), 0)
+    if case['ow'] != 'normal':
+        lay.set_text(case['text'], break_words=True)       # insert_hyphens off, as in step 5 of split_first_line
     if case['wc']:
         pango.pango_layout_set_wrap(lay.layout, PANGO_WRAP_MODE['WRAP_CHAR'])
     fl, idx = lay.get_first_line()
